@@ -5,6 +5,7 @@ package main
 import (
 	"crypto/sha256"
 	"encoding/hex"
+	"flag"
 	"fmt"
 	"os"
 	"path/filepath"
@@ -16,9 +17,10 @@ import (
 )
 
 type witness struct {
-	Family  string   `json:"family"`
-	Cfg     string   `json:"cfg"`
-	History []string `json:"history"`
+	Family   string   `json:"family"`
+	Cfg      string   `json:"cfg"`
+	Boundary bool     `json:"boundary,omitempty"`
+	History  []string `json:"history"`
 }
 
 // lastRun is what the reference remembers per target: the hashed signature and the unsafe values at its last execution.
@@ -38,6 +40,7 @@ func plzPath() string {
 }
 
 func main() {
+	onlyFam := flag.String("family", "", "run only the family with this name (e.g. env-none-boundary)")
 	r := lib.Start("C10", "model_checking")
 	root := filepath.Join(lib.VerifRoot, ".work", "hist", "C10")
 	if r.Replay != "" {
@@ -62,6 +65,7 @@ func main() {
 			{hist.EnvFam{Cfg: "both", Vals: []string{"2", "-"}, WithNoop: true, WithRm: true}, 3},
 			{hist.EnvFam{Cfg: "unsafe", Vals: []string{"2", "-", "e"}, WithPath: true, WithNoop: true}, 2},
 			{hist.EnvFam{Cfg: "none", Vals: []string{"2", "-", "e"}, WithPath: true, WithRm: true}, 2},
+			{hist.EnvFam{Cfg: "none", Boundary: true, WithNoop: true}, 2},
 		}
 	}
 	if r.Replay != "" {
@@ -75,6 +79,9 @@ func main() {
 	var samples []any
 	refs := 0
 	for _, rn := range runs {
+		if *onlyFam != "" && rn.fam.Name() != *onlyFam {
+			continue
+		}
 		e := hist.NewEngine(plz, filepath.Join(root, rn.fam.Name()), rn.fam)
 		memo := hist.NewMemo()
 		visit := makeVisit(r, e, rn.fam, memo)
@@ -89,11 +96,12 @@ func main() {
 			total.EditKindsHit[k] += v
 		}
 		for _, s := range st.Samples {
-			samples = append(samples, witness{Family: rn.fam.Name(), Cfg: rn.fam.Cfg, History: s})
+			samples = append(samples, witness{Family: rn.fam.Name(), Cfg: rn.fam.Cfg, Boundary: rn.fam.Boundary, History: s})
 		}
 		fmt.Fprintf(os.Stderr, "C10 %s depth=%d: states=%d transitions=%d reference-builds=%d complete=%v\n", rn.fam.Name(), st.DepthDone, st.States, st.Transitions, e.Clean, st.Complete)
 		os.RemoveAll(e.Root)
 	}
+	os.RemoveAll(root) // r.Finish exits the process: deferred clean-up would not run
 	r.Assume = []string{
 		"plz is run hermetically as the real binary built from the working tree; the caller environment is exactly PATH, HOME, LANG, GOMAXPROCS, GOGC (fixed by the engine) + VERIF_MARKER=1 + the FOO/BAR/BAZ/QUX values of the state",
 		"pass_unsafe_env is not an argument of build_rule on this tree, so the unsafe variable is configured with [build] passunsafeenv; [build] passenv is exercised as the configuration-level hashed variable",
@@ -148,7 +156,7 @@ var plzDefines = map[string]bool{"PATH": true, "HOME": true, "LANG": true}
 func makeVisit(r *lib.Run, e *hist.Engine, fam hist.EnvFam, memo *hist.Memo) hist.Visit {
 	return e.Confirmed(makeJudge(e, fam, memo), noCache+fam.ExtraConfig(), r.HasViolation,
 		func(f hist.Finding, history []string) {
-			r.Violate(f.Class, witness{Family: fam.Name(), Cfg: fam.Cfg, History: history}, f.Detail)
+			r.Violate(f.Class, witness{Family: fam.Name(), Cfg: fam.Cfg, Boundary: fam.Boundary, History: history}, f.Detail)
 		},
 		func(msg string) { lib.Fatal("HARNESS-NONDETERMINISM: %s", msg) })
 }
@@ -178,7 +186,9 @@ func makeJudge(e *hist.Engine, fam hist.EnvFam, memo *hist.Memo) hist.Judge {
 	}
 	return func(from *hist.State, ed hist.Edit, obs *hist.Obs, dir string) (any, string, []hist.Finding) {
 		var fs []hist.Finding
-		violate := func(class string, _ witness, detail string) { fs = append(fs, hist.Finding{Class: class, Detail: detail}) }
+		violate := func(class string, _ witness, detail string) {
+			fs = append(fs, hist.Finding{Class: class, Detail: detail})
+		}
 		var histry []string
 		if from != nil {
 			histry = append(append(histry, from.Hist...), ed.Name)
@@ -238,7 +248,7 @@ func makeJudge(e *hist.Engine, fam hist.EnvFam, memo *hist.Memo) hist.Judge {
 			}
 			ce := callerEnv(fam, ed.Src)
 			ce["PATH"] = append(ce["PATH"], "/usr/local/bin:/usr/bin:/bin:/nonexistent-verif")
-			for _, name := range []string{"BAZ", "VERIF_MARKER", "GOMAXPROCS", "GOGC", "FOO", "BAR", "QUX", "PATH", "HOME", "LANG"} {
+			for _, name := range []string{"BAZ", "VERIF_MARKER", "GOMAXPROCS", "GOGC", "FOO", "BAR", "QUX", "GOO", "PATH", "HOME", "LANG"} {
 				if visible[name] {
 					continue
 				}
@@ -288,7 +298,7 @@ func makeJudge(e *hist.Engine, fam hist.EnvFam, memo *hist.Memo) hist.Judge {
 }
 
 func replay(r *lib.Run, plz, root string, w witness) {
-	fam := hist.EnvFam{Cfg: w.Cfg, Vals: []string{"2", "-", "e"}, WithPath: true, WithNoop: true, WithRm: true}
+	fam := hist.EnvFam{Cfg: w.Cfg, Boundary: w.Boundary, Vals: []string{"2", "-", "e"}, WithPath: true, WithNoop: true, WithRm: true}
 	e := hist.NewEngine(plz, filepath.Join(root, "replay"), fam)
 	visit := makeVisit(r, e, fam, hist.NewMemo())
 	var st *hist.State
@@ -319,5 +329,6 @@ func replay(r *lib.Run, plz, root string, w witness) {
 		}
 		st, src = ns, ed.Src
 	}
+	os.RemoveAll(root)
 	r.Finish(lib.Coverage{Evaluations: len(w.History), DistinctNontrivial: len(w.History), States: len(w.History), Transitions: len(w.History), TracesValidated: len(w.History), Samples: []any{w}, Exhaustive: true})
 }
